@@ -80,6 +80,16 @@ def check_policy_forwarding(prog, rep, rule):
                 rep.touch(f)
                 site = '%s -> %s|%s' % ((f.pq if f.cls else f.name), g.name, k)
                 a = args[i] if i < len(args) else None
+                held_names = set(h.split(' ', 1)[1] for h in [have[k]])
+                from bsv.expr import resolve as _res
+                ra = _res(f, a) if a is not None else None
+                derives = ra is not None and any((x['k'] == 'DeclRefExpr' and x.get('n') in held_names) or (x['k'] == 'MemberExpr' and x.get('m') in held_names)
+                                                 for x in f.walk(ra))
+                if a is not None and a['k'] != 'CXXDefaultArgExpr' and not derives:
+                    rep.finding(rule, site + '|other source', f.loc(c), '%s holds an error %s (%s) but hands %s something that does not derive from it '
+                                '(a constant, the library default, another object): the caller\'s configuration is ignored at this site'
+                                % (f.pq if f.cls else f.name, k, have[k], g.q.split('::')[-2] + '::' + g.name), func=f.id)
+                    continue
                 if a is None or a['k'] == 'CXXDefaultArgExpr':
                     rep.finding(rule, site, f.loc(c), '%s holds an error %s (%s) but calls %s without passing it: the callee falls back to its default '
                                 '(%s), whatever the caller configured' % (f.pq if f.cls else f.name, k, have[k], g.q.split('::')[-2] + '::' + g.name,
